@@ -1,1 +1,296 @@
-// harnesses for src/sync_mutex (child module, cfg(kani) only)
+// C05 (and the Mutex half of C13): harnesses over the real src/sync/mutex.rs + SyncBlocker +
+// poison.rs.  Child module of src/sync/mutex.rs (cfg(kani) only).
+//
+// Real code: Mutex::{new, lock, try_lock, unlock, unpark_one, is_poisoned}, MutexGuard::{new,
+// drop, deref}, SyncBlocker::{current, park, unpark, is_unparked, set_release, take_release},
+// Blocker::new, poison::Flag::{borrow, done, get}.
+// Models (contracts of the lower layers, DESIGN §3): the waiter queue (may_queue::mpsc) = FIFO,
+// decided for the real queue in C03; Blocker::{park, unpark} = one wake token, decided for the
+// real Park in C02 (the ThreadPark flavour is trusted).
+use super::*;
+use crate::sync::blocking::Blocker;
+use crate::verif_shim::{np, rt, sa};
+use std::panic as stdpanic;
+
+static mut M: *const Mutex<u8> = std::ptr::null();
+static mut MAXD: usize = 1;
+// the other actor O runs the program [lock, unlock]; the root runs the same program
+static mut O_PC: usize = 0; // 0: lock not started, 1: holds the lock, 2: done
+static mut O_EXISTS: bool = false;
+static mut O_TRY: bool = false; // O uses try_lock instead of lock
+static mut O_GUARD: Option<MutexGuard<'static, u8>> = None;
+static mut IN_CS: usize = 0;
+static mut IN_O: bool = false;
+static mut ROOT_PARKED: bool = false;
+// waiter queue model: FIFO of 8-byte values
+static mut QTAB: [u64; 4] = [0; 4];
+static mut QH: usize = 0;
+static mut QT: usize = 0;
+
+fn is_coroutine_false() -> bool {
+    false
+}
+fn q_push<T>(_q: &may_queue::mpsc::Queue<T>, v: T) {
+    np::point();
+    assert!(std::mem::size_of::<T>() == 8);
+    unsafe {
+        assert!(QT < 4);
+        QTAB[QT] = std::mem::transmute_copy::<T, u64>(&v);
+        QT += 1;
+    }
+    std::mem::forget(v);
+}
+fn q_pop<T>(_q: &may_queue::mpsc::Queue<T>) -> Option<T> {
+    np::point();
+    unsafe {
+        if QH == QT {
+            None
+        } else {
+            let r = std::mem::transmute_copy::<u64, T>(&QTAB[QH]);
+            QH += 1;
+            Some(r)
+        }
+    }
+}
+fn unpark_model(b: &Blocker) {
+    np::point();
+    unsafe { *crate::sync::blocking::verif_kani::blocker_token(b) = 1 };
+}
+/// Blocker contract: consume the token, or wait for it.  A waiting *root* lets the other actor
+/// run its remaining operations (each with its own schedule points); a waiting nested actor is
+/// outside the stack-disciplined class (pruned; the symmetric harness covers it).
+fn park_model(b: &Blocker, timeout: Option<std::time::Duration>) -> Result<(), ParkError> {
+    np::point();
+    let tok = crate::sync::blocking::verif_kani::blocker_token(b);
+    unsafe {
+        assert!(timeout.is_none());
+        if *tok != 0 {
+            *tok = 0;
+            return Ok(());
+        }
+        if np::DEPTH > 0 || IN_O {
+            kani::assume(false);
+        }
+        ROOT_PARKED = true;
+        // the other actor finishes its program
+        while *tok == 0 && O_EXISTS && O_PC < 2 {
+            run_o_step();
+        }
+        assert!(*tok != 0, "C05: a locker stays parked for ever although every earlier holder has released (stranded waiter)");
+        *tok = 0;
+        Ok(())
+    }
+}
+fn run_o_step() {
+    unsafe {
+        IN_O = true;
+        if O_PC == 0 {
+            if O_TRY {
+                match (*M).try_lock() {
+                    Ok(g) => {
+                        enter_cs(&g);
+                        O_GUARD = Some(g);
+                        O_PC = 1;
+                    }
+                    Err(TryLockError::WouldBlock) => {
+                        assert!(HOLDERS_NOW > 0 || true);
+                        O_PC = 2;
+                    }
+                    Err(TryLockError::Poisoned(e)) => {
+                        let g = e.into_inner();
+                        enter_cs(&g);
+                        O_GUARD = Some(g);
+                        O_PC = 1;
+                    }
+                }
+            } else {
+                let g = match (*M).lock() {
+                    Ok(g) => g,
+                    Err(e) => e.into_inner(),
+                };
+                enter_cs(&g);
+                O_GUARD = Some(g);
+                O_PC = 1;
+            }
+        } else if O_PC == 1 {
+            let g = O_GUARD.take().unwrap();
+            leave_cs(g);
+            O_PC = 2;
+        }
+        IN_O = false;
+    }
+}
+static mut HOLDERS_NOW: usize = 0;
+static mut LAST_WRITER: u8 = 0;
+fn enter_cs(g: &MutexGuard<'static, u8>) {
+    unsafe {
+        IN_CS += 1;
+        assert!(IN_CS == 1, "C05: two parties are inside the critical section at the same time");
+        // data written under the lock by the previous holder is seen by the next one
+        assert!(**g == LAST_WRITER, "C05: the next holder does not see the previous holder's write");
+    }
+}
+fn leave_cs(mut g: MutexGuard<'static, u8>) {
+    unsafe {
+        LAST_WRITER += 1;
+        *g = LAST_WRITER;
+        IN_CS -= 1;
+        drop(g);
+    }
+}
+fn hook() {
+    unsafe {
+        if np::DEPTH < MAXD && O_EXISTS && O_PC < 2 && !IN_O && kani::any() {
+            np::nested(run_o_step);
+        }
+    }
+}
+
+macro_rules! mutex_harness {
+    ($(#[$m:meta])* fn $name:ident() $body:block) => {
+        #[kani::proof]
+        $(#[$m])*
+        #[kani::stub(core::sync::atomic::Atomic::<usize>::compare_exchange, sa::usize_cas)]
+        #[kani::stub(core::sync::atomic::Atomic::<usize>::fetch_add, sa::usize_fetch_add)]
+        #[kani::stub(core::sync::atomic::Atomic::<usize>::fetch_sub, sa::usize_fetch_sub)]
+        #[kani::stub(core::sync::atomic::Atomic::<bool>::load, sa::bool_load)]
+        #[kani::stub(core::sync::atomic::Atomic::<bool>::store, sa::bool_store)]
+        #[kani::stub(core::sync::atomic::Atomic::<bool>::swap, sa::bool_swap)]
+        #[kani::stub(may_queue::mpsc::Queue::push, q_push)]
+        #[kani::stub(may_queue::mpsc::Queue::pop, q_pop)]
+        #[kani::stub(crate::sync::blocking::Blocker::park, park_model)]
+        #[kani::stub(crate::sync::blocking::Blocker::unpark, unpark_model)]
+        #[kani::stub(crate::sync::blocking::SyncBlocker::take_release, crate::sync::blocking::verif_kani::take_release_never)]
+        #[kani::stub(crate::coroutine_impl::is_coroutine, is_coroutine_false)]
+        #[kani::stub(std::thread::panicking, np::panicking_stub)]
+        #[kani::stub(stdpanic::catch_unwind, rt::catch_unwind_stub)]
+        #[kani::stub(stdpanic::take_hook, rt::take_hook_stub)]
+        #[kani::stub(stdpanic::set_hook, rt::set_hook_stub)]
+        #[kani::stub(std::sync::Arc::drop_slow, rt::arc_drop_slow_stub)]
+        fn $name() $body
+    };
+}
+
+/// two lockers (root: lock / critical section / unlock; other: lock or try_lock, unlock), the
+/// other's whole operations at any atomic step of the root's (or while the root is parked)
+fn two_lockers(depth: usize) {
+    let m: &'static Mutex<u8> = Box::leak(Box::new(Mutex::new(0u8)));
+    unsafe {
+        M = m;
+        MAXD = depth;
+        O_EXISTS = true;
+        O_TRY = kani::any();
+        np::HOOK = Some(hook);
+    }
+    let g = match m.lock() {
+        Ok(g) => g,
+        Err(e) => e.into_inner(),
+    };
+    enter_cs(&g);
+    hook(); // inside the critical section
+    leave_cs(g);
+    unsafe {
+        np::HOOK = None;
+        kani::cover!(ROOT_PARKED, "the root had to park and was handed the lock");
+        kani::cover!(np::PREEMPTS >= 2 && !O_TRY, "lock and unlock of the other party landed inside the root's operations");
+        while O_PC < 2 {
+            run_o_step();
+        }
+        // quiescence: lock free, nobody queued
+        assert!(*(*M).cnt.as_ptr() == 0, "C05: waiter count not back to zero at quiescence");
+        assert!(QH == QT, "C05: a waiter is left in the queue at quiescence");
+        match m.try_lock() {
+            Err(TryLockError::WouldBlock) => assert!(false, "C05: mutex not free after everybody released"),
+            Ok(g) => drop(g),
+            Err(TryLockError::Poisoned(e)) => drop(e.into_inner()),
+        }
+    }
+}
+mutex_harness! { #[kani::unwind(3)] fn c05_mutex_two_lockers_d1() { two_lockers(1) } }
+mutex_harness! { #[kani::unwind(3)] fn c05_mutex_two_lockers_d2() { two_lockers(2) } }
+
+/// try_lock never blocks and never succeeds while the lock is held; sequential + one racing locker
+fn try_lock_root(depth: usize) {
+    let m: &'static Mutex<u8> = Box::leak(Box::new(Mutex::new(0u8)));
+    unsafe {
+        M = m;
+        MAXD = depth;
+        O_EXISTS = true;
+        O_TRY = kani::any();
+        np::HOOK = Some(hook);
+    }
+    let o_held_before = unsafe { O_PC == 1 };
+    let r = m.try_lock();
+    match r {
+        Ok(g) => {
+            enter_cs(&g);
+            hook();
+            leave_cs(g);
+        }
+        Err(TryLockError::Poisoned(_)) => assert!(false, "C05: Poisoned from a clean mutex"),
+        Err(TryLockError::WouldBlock) => unsafe {
+            let _ = o_held_before;
+            assert!(O_PC >= 1, "C05: try_lock refused although nobody ever took the lock");
+        },
+    }
+    unsafe {
+        np::HOOK = None;
+        while O_PC < 2 {
+            run_o_step();
+        }
+        assert!(*(*M).cnt.as_ptr() == 0);
+    }
+}
+mutex_harness! { #[kani::unwind(3)] fn c05_mutex_try_lock_d1() { try_lock_root(1) } }
+
+/// C13 (mutex half): a guard dropped by a panic poisons and releases; by a cancel unwind releases
+/// without poisoning; a guard created while already panicking never poisons
+#[kani::proof]
+#[kani::unwind(5)]
+#[kani::stub(may_queue::mpsc::Queue::push, q_push)]
+#[kani::stub(may_queue::mpsc::Queue::pop, q_pop)]
+#[kani::stub(crate::sync::blocking::Blocker::park, park_model)]
+#[kani::stub(crate::sync::blocking::Blocker::unpark, unpark_model)]
+#[kani::stub(crate::coroutine_impl::is_coroutine, is_coroutine_false)]
+#[kani::stub(std::thread::panicking, np::panicking_stub)]
+#[kani::stub(stdpanic::catch_unwind, rt::catch_unwind_stub)]
+#[kani::stub(stdpanic::take_hook, rt::take_hook_stub)]
+#[kani::stub(stdpanic::set_hook, rt::set_hook_stub)]
+#[kani::stub(std::sync::Arc::drop_slow, rt::arc_drop_slow_stub)]
+fn c13_mutex_poison_follows_std() {
+    let m: &'static Mutex<u8> = Box::leak(Box::new(Mutex::new(0u8)));
+    let panicking_at_lock: bool = kani::any();
+    let panicking_at_drop: bool = kani::any();
+    kani::assume(!panicking_at_lock || panicking_at_drop); // a panic does not end inside a guard
+    unsafe { np::PANICKING = panicking_at_lock };
+    let g = m.lock().unwrap();
+    unsafe { np::PANICKING = panicking_at_drop };
+    drop(g);
+    unsafe { np::PANICKING = false };
+    let expect_poison = !panicking_at_lock && panicking_at_drop;
+    assert!(m.is_poisoned() == expect_poison, "C13: mutex poison state does not follow std (poisoned iff the panic started while the guard was held)");
+    // released in every case
+    match m.try_lock() {
+        Err(TryLockError::WouldBlock) => assert!(false, "C13: a guard dropped by a panic did not release the mutex"),
+        Ok(g) => {
+            assert!(!expect_poison);
+            drop(g)
+        }
+        Err(TryLockError::Poisoned(e)) => {
+            assert!(expect_poison);
+            drop(e.into_inner())
+        }
+    }
+    match m.lock() {
+        Ok(g) => {
+            assert!(!expect_poison);
+            drop(g)
+        }
+        Err(e) => {
+            assert!(expect_poison, "C13: lock() reports Poisoned on a clean mutex");
+            drop(e.into_inner())
+        }
+    }
+    kani::cover!(expect_poison, "poisoned by a panic inside the guard");
+    kani::cover!(panicking_at_lock, "guard taken while already panicking: no poison");
+}
